@@ -22,12 +22,12 @@
 (* the comparison: from then on every observation of a and b is recorded.  *)
 (* Binding actions only record; the demands are the predicates below.      *)
 (***************************************************************************)
-EXTENDS Integers, Sequences, FiniteSets, TLC, Json, IOUtils
+EXTENDS PolyTables, FiniteSets, TLC, Json, IOUtils
 
 Rec == ndJsonDeserialize(IOEnv.TRACE)
 
-VARIABLES l, obs, blk, tau, rel, e, scr
-vars == <<l, obs, blk, tau, rel, e, scr>>
+VARIABLES l, obs, blk, tau, val, rel, e, scr
+vars == <<l, obs, blk, tau, val, rel, e, scr>>
 
 Ids == 0..15
 ONE == 1048576
@@ -38,17 +38,21 @@ Diff(a, b) == LET di == a[1] - b[1]
               IN IF di > 1000 THEN BIG ELSE IF di < -1000 THEN -BIG ELSE di * ONE + (a[2] - b[2])
 
 Empty == [i \in Ids |-> <<>>]
-TraceInit == /\ l = 1 /\ obs = Empty /\ blk = Empty /\ tau = Empty /\ rel = {}
+TraceInit == /\ l = 1 /\ obs = Empty /\ blk = Empty /\ tau = Empty /\ val = Empty /\ rel = {}
              /\ e = [ev |-> "none", id |-> 0, line |-> 0] /\ scr = ""
 
 Cur == Rec[l]
 Is(name) == l <= Len(Rec) /\ Cur.ev = name
 
 Begin == /\ Is("begin") /\ l' = l + 1 /\ e' = [ev |-> "begin", id |-> 0, line |-> 0]
-         /\ obs' = Empty /\ blk' = Empty /\ tau' = Empty /\ rel' = {} /\ scr' = Cur.script
+         /\ obs' = Empty /\ blk' = Empty /\ tau' = Empty /\ val' = Empty /\ rel' = {} /\ scr' = Cur.script
 
 End == /\ Is("end") /\ l' = l + 1 /\ e' = [ev |-> "end", id |-> 0, line |-> 0]
-       /\ UNCHANGED <<obs, blk, tau, rel, scr>>
+       /\ UNCHANGED <<obs, blk, tau, val, rel, scr>>
+
+\* measurements that are not calls on one instance: kernel probes, numeric comparisons
+Aux == /\ (Is("kernel") \/ Is("cmp")) /\ l' = l + 1 /\ e' = Cur
+       /\ UNCHANGED <<obs, blk, tau, val, rel, scr>>
 
 \* a note that declares a twin relation clears what was recorded for its two instances
 Note ==
@@ -56,11 +60,13 @@ Note ==
   /\ UNCHANGED scr
   /\ IF "twin" \in DOMAIN Cur
      THEN /\ rel' = rel \cup {[mode |-> Cur.twin, a |-> Cur.a, b |-> Cur.b,
-                               c |-> IF "c" \in DOMAIN Cur THEN Cur.c ELSE 0]}
+                               c |-> IF "c" \in DOMAIN Cur THEN Cur.c ELSE 0,
+                               deg |-> IF "degree" \in DOMAIN Cur THEN Cur.degree ELSE ""]}
           /\ obs' = [obs EXCEPT ![Cur.a] = <<>>, ![Cur.b] = <<>>]
           /\ blk' = [blk EXCEPT ![Cur.a] = <<>>, ![Cur.b] = <<>>]
           /\ tau' = [tau EXCEPT ![Cur.a] = <<>>, ![Cur.b] = <<>>]
-     ELSE UNCHANGED <<obs, blk, tau, rel>>
+          /\ val' = [val EXCEPT ![Cur.a] = <<>>, ![Cur.b] = <<>>]
+     ELSE UNCHANGED <<obs, blk, tau, val, rel>>
 
 \* what is observable of one call
 Class(ev) == CASE ev \in {"process", "partial", "bad"} -> "proc"
@@ -82,8 +88,10 @@ Call ==
   /\ blk' = IF "blocks" \in DOMAIN Cur THEN [blk EXCEPT ![Cur.id] = @ \o Cur.blocks] ELSE blk
   /\ tau' = IF "taus" \in DOMAIN Cur /\ Cur.res = "ok" THEN [tau EXCEPT ![Cur.id] = @ \o Cur.taus]
             ELSE tau
+  /\ val' = IF "vals" \in DOMAIN Cur /\ Cur.res = "ok" THEN [val EXCEPT ![Cur.id] = @ \o Cur.vals]
+            ELSE val
 
-TraceNext == Begin \/ End \/ Note \/ Call
+TraceNext == Begin \/ End \/ Note \/ Call \/ Aux
 TraceSpec == TraceInit /\ [][TraceNext]_vars
 
 Progress == TLCSet(1, l)
@@ -97,7 +105,7 @@ TraceAccepted ==
 (* Twin predicates.  Only relations that involve the instance of the event *)
 (* just bound are evaluated, on the common prefix of the two records.      *)
 (***************************************************************************)
-Touches(r) == e.ev \notin {"begin", "end", "note", "none"} /\ (e.id = r.a \/ e.id = r.b)
+Touches(r) == e.ev \notin {"begin", "end", "note", "none", "kernel", "cmp"} /\ (e.id = r.a \/ e.id = r.b)
 Common(r) == Min(Len(obs[r.a]), Len(obs[r.b]))
 
 \* bit-identical outputs, identical counts, results and getters
@@ -132,6 +140,35 @@ TwinTaus ==
   \A r \in rel : (r.mode = "taus" /\ Touches(r)) =>
     \A k \in 1..Min(Len(tau[r.a]), Len(tau[r.b])) : Abs(Diff(tau[r.a][k], tau[r.b][k])) <= 4
 
+\* C08: instance a is fed the index signal (its outputs are the evaluation instants), instance b
+\* the one-hot signal e_h with identical calls: output k of b must be the cardinal polynomial of
+\* the hot sample's place in the window of instant k, evaluated at the instant's fractional part
+PolyOk(deg, h, t, v) ==
+  (t[2] % 1024 = 0 /\ t[1] >= 4) =>
+    LET m   == h - (t[1] + Lo(deg)) + 1
+        exp == IF m >= 1 /\ m <= NPts(deg) THEN CardFix(deg, m, t[2] \div 1024) ELSE 0
+        v16 == v[1] * 65536 + (v[2] \div 16)
+    IN Abs(v16 * Den(deg) - exp) <= 3 * Den(deg) + 64
+TwinPoly ==
+  \A r \in rel : (r.mode = "poly" /\ Touches(r)) =>
+    \A k \in 1..Min(Len(tau[r.a]), Len(val[r.b])) : PolyOk(r.deg, r.c, tau[r.a][k], val[r.b][k])
+
+\* C15: one-hot probes of the public kernels: bit-identical to the scalar kernel, exactly zero
+\* outside the window [index, index + L); dense waves within the summation-order bound (guard)
+KernelEq ==
+  e.ev = "kernel" =>
+    \A i \in 1..Len(e.dig) :
+      e.dig[i] # "absent" =>
+        /\ e.dig[i] = e.dig[1]
+        /\ e.outside_zero[i]
+        /\ e.inside_nonzero[i] = e.inside_nonzero[1]
+        /\ e.inside_nonzero[1] * 2 > e.L
+        /\ e.dense_milli[i] <= 1000
+
+\* numeric guards (not the deciding argument): difference of two instances' last outputs in
+\* units of epsilon * peak is below the bound the script states
+TwinNear == e.ev = "cmp" => (e.n > 0 => e.units <= e.bound)
+
 Where(name) == name \o "|" \o scr \o "|" \o ToString(e.line) \o "|" \o e.ev
 Soft(name, ok) == ok \/ PrintT("VIOL|-|" \o Where(name))
 
@@ -140,5 +177,8 @@ H_TwinCtl == TwinCtl         S_TwinCtl == Soft("TwinCtl", TwinCtl)
 H_TwinChan == TwinChan       S_TwinChan == Soft("TwinChan", TwinChan)
 H_TwinBlocks == TwinBlocks   S_TwinBlocks == Soft("TwinBlocks", TwinBlocks)
 H_TwinTaus == TwinTaus       S_TwinTaus == Soft("TwinTaus", TwinTaus)
+H_TwinPoly == TwinPoly       S_TwinPoly == Soft("TwinPoly", TwinPoly)
+H_KernelEq == KernelEq       S_KernelEq == Soft("KernelEq", KernelEq)
+H_TwinNear == TwinNear       S_TwinNear == Soft("TwinNear", TwinNear)
 
 =============================================================================
